@@ -93,6 +93,15 @@ theorem track_parse_error (e : CmdEnv) (r : TrackReady e) (hg : e.generatedExist
   · simp [plan, preRun, loadCfg, r.goMod, r.dotGit, r.cfgE, r.cfgP, r.cfgV, hg, hw, hi, hm, h]
   · simp [plan, preRun, loadCfg, r.goMod, r.dotGit, r.cfgE, r.cfgP, r.cfgV, hg, hw, ho, hn, hh, hm, h]
 
+/-- patch and clean: a marked file that does not parse is a refusal (all files are prepared,
+    hence parsed, before the first write) -/
+theorem patch_clean_parse_error (e : CmdEnv) (r : TrackReady e) (hm : e.hasMain = true)
+    (hk : e.hasMarkers = true) (h : e.changedFilesParse = false) :
+    plan e .patch = .error .parseError ∧ plan e .clean = .error .parseError := by
+  constructor
+  · simp [plan, preRun, loadCfg, r.goMod, r.dotGit, r.cfgE, r.cfgP, r.cfgV, hm, hk, h]
+  · simp [plan, preRun, loadCfg, r.goMod, r.dotGit, r.cfgE, r.cfgP, r.cfgV, hk, h]
+
 /-- **a successful run that finds nothing to do changes nothing** -/
 theorem nothing_to_do_no_writes (e : CmdEnv) (r : TrackReady e) (hm : e.hasMain = true) :
     (e.generatedExists = false → e.worktreeClean = true →
